@@ -332,6 +332,38 @@ def judge_cut(c, m, light):
                     J.eq(route, "row", row.ravel(), expect(c["row"], np.uint16))
                     J.eq(route, "col", col.ravel(), expect(c["col"], np.uint16))
                     J.eq(route, "val", val.ravel(), ev)
+    # IEEE special values in float32 images (dead pixels after a dark / flat correction give NaN, saturated ones inf): the
+    # selection is msk AND (value > cut) in IEEE semantics - NaN is never above a cut, +inf always, -inf never.  The expectation
+    # is the definition itself evaluated by numpy on the image the kernel receives (independent of the model's grey levels)
+    if c["style"] == "nested" and not light:
+        for stag, special in (("nan", {1: np.nan}), ("nan+inf", {1: np.nan, 2: np.inf}), ("-inf", {1: -np.inf}), ("all nan", {0: np.nan, 1: np.nan, 2: np.nan})):
+            data = img.astype(np.float32)
+            for v, sp in special.items():
+                data[img == v] = sp
+            for mname, msk in (("uint8", mskb.astype(np.uint8)), ("ones", np.ones((ns, nf), np.uint8))):
+                with np.errstate(invalid="ignore"):
+                    sel = (msk != 0) & (data > np.float32(cut))
+                er, ec = np.nonzero(sel)
+                row = np.full((ns, nf), P16, np.uint16)
+                col = np.full((ns, nf), P16, np.uint16)
+                val = np.full((ns, nf), PF32, np.float32)
+                route = "cImageD11.tosparse_f32[msk %s, values %s]" % (mname, stag)
+                ok, ret = J.call(route, m.c.tosparse_f32, data, msk, row, col, val, float(cut))
+                if ok:
+                    n = int(sel.sum())
+                    J.eq(route, "return", int(ret), n)
+                    J.eq(route, "row", row.ravel()[:n], er.astype(np.uint16))
+                    J.eq(route, "col", col.ravel()[:n], ec.astype(np.uint16))
+                    J.eq(route, "val (bit pattern)", val.ravel()[:n].view(np.uint32), data[sel].view(np.uint32))
+                    J.eq(route, "cells behind the selection untouched", val.ravel()[n:], np.full(ns * nf - n, PF32, np.float32))
+                if sel.any() and mname == "uint8":
+                    route = "sparseframe.from_data_cut[float32, values %s]" % stag
+                    ok, fr = J.call(route, m.sf.from_data_cut, data, float(cut), {}, detectormask=msk)
+                    if ok:
+                        J.eq(route, "nnz", int(fr.nnz), n)
+                        J.eq(route, "row", fr.row, er.astype(np.uint16))
+                        J.eq(route, "col", fr.col, ec.astype(np.uint16))
+                        J.eq(route, "intensity (bit pattern)", fr.pixels["intensity"].view(np.uint32), data[sel].view(np.uint32))
     if c["frame"] and c["style"] == "nested":
         efr = c["frame"][0]
         allones = all(v != 0 for v in c["msk"])
